@@ -68,7 +68,11 @@ class Check(BaseCheck):
             if r != "ok " + got or np.asarray(d["Eigenvalues"]).shape != (k,) or np.asarray(d["Eigenvectors"]).shape != (len(v), k):
                 fails.append(core.Failure("correspondence", "compute_shapedna dictionary vs model", "impl %s model %s" % (got, r), case))
             ev = np.asarray(d["Eigenvalues"], float)
-            area, vol = enclosed(kind, v, t)
+            enc = core.call(enclosed, kind, v, t)
+            if enc[0] != "ok":
+                stats.monitor("normalize_ev skipped: boundary surface of the tetra sub-collection is not an orientable manifold")
+                continue
+            area, vol = enc[1]
             for meth in ("surface", "volume", "geometry"):
                 if kind == "tet" and meth == "surface":
                     continue          # TetMesh has no area(): AttributeError, outside the property
@@ -128,7 +132,10 @@ class Check(BaseCheck):
         for meth in ("surface", "volume", "geometry"):
             if kind == "tet" and meth == "surface":
                 continue
-            area, vol = enclosed(kind, v, t)
+            enc = core.call(enclosed, kind, v, t)
+            if enc[0] != "ok":
+                continue
+            area, vol = enc[1]
             if kind == "tri" and meth == "volume" and vol <= 1e-9:
                 continue
             with core.quiet():
